@@ -10,6 +10,19 @@
 open Model
 open Conv
 
+(* result lines are tab separated, one per case: no raw control characters in key / detail *)
+let clean (s : string) : string =
+  let b = Buffer.create (String.length s) in
+  String.iter (fun c ->
+      let k = Char.code c in
+      if c = '\n' || c = '\t' || c = '\r' then Buffer.add_char b ' '
+      else if k < 32 || k > 126 then Buffer.add_string b (Printf.sprintf "\\x%02x" k)
+      else Buffer.add_char b c) s;
+  Buffer.contents b
+let result ~id ~status ~key ?(detail = "") () =
+  let detail = if String.length detail > 1500 then String.sub detail 0 1500 ^ "..." else detail in
+  Registry.result ~id ~status ~key:(clean key) ~detail:(clean detail) ()
+
 let s2c = coqstr
 let c2s = ocamlstr
 
@@ -209,9 +222,9 @@ let handle_expr (id : string) (fs : Sexp.t list) : string =
        | _ -> ())
     with Verdict ("fail", key, detail) ->
       raise (Verdict ("fail", key, if corr then detail else detail ^ " ALSO-DIFF " ^ corr_detail)));
-    if corr then Registry.result ~id ~status:"ok" ~key:op ()
-    else Registry.result ~id ~status:"diff" ~key:("text:" ^ op) ~detail:corr_detail ()
-  with Verdict (status, key, detail) -> Registry.result ~id ~status ~key ~detail ()
+    if corr then result ~id ~status:"ok" ~key:op ()
+    else result ~id ~status:"diff" ~key:("text:" ^ op) ~detail:corr_detail ()
+  with Verdict (status, key, detail) -> result ~id ~status ~key ~detail ()
 
 (* ---- commands *)
 let logic_of = function
@@ -305,15 +318,15 @@ let handle_cmd (id : string) (fs : Sexp.t list) : string =
             | _ -> ()))
     with Verdict ("fail", key, detail) ->
       raise (Verdict ("fail", key, if corr then detail else detail ^ " ALSO-DIFF " ^ corr_detail)));
-    if corr then Registry.result ~id ~status:"ok" ~key:("cmd:" ^ kind) ()
-    else Registry.result ~id ~status:"diff" ~key:("cmd:" ^ kind) ~detail:corr_detail ()
-  with Verdict (status, key, detail) -> Registry.result ~id ~status ~key ~detail ()
+    if corr then result ~id ~status:"ok" ~key:("cmd:" ^ kind) ()
+    else result ~id ~status:"diff" ~key:("cmd:" ^ kind) ~detail:corr_detail ()
+  with Verdict (status, key, detail) -> result ~id ~status ~key ~detail ()
 
 let handle (x : Sexp.t) : string =
   let (id, fs) = case_fields x in
   match Sexp.atom (Sexp.field1 "kind" fs) with
   | "expr" -> handle_expr id fs
   | "cmd" -> handle_cmd id fs
-  | k -> Registry.result ~id ~status:"error" ~key:"kind" ~detail:k ()
+  | k -> result ~id ~status:"error" ~key:"kind" ~detail:k ()
 
 let () = Registry.register "C05" handle
